@@ -178,9 +178,13 @@ func (e *Engine) findSentinels() {
 	it := types.Typ[types.Int]
 	for _, nm := range names {
 		n++
+		sentinelVals["G:"+nm] = Val{K: KIface, T: errT, F: []Val{scalar(IntLit(int64(e.typeID(sentinelType{}))), it), scalar(IntLit(int64(-1000-n)), it)}}
 		e.sentinels["G:"+nm] = Val{K: KIface, T: errT, F: []Val{scalar(IntLit(int64(e.typeID(sentinelType{}))), it), scalar(IntLit(int64(-1000-n)), it)}}
 	}
 }
+
+// sentinelVals: package-level error variables as distinct non-nil constants (see findSentinels).
+var sentinelVals = map[string]Val{}
 
 type sentinelType struct{}
 
@@ -245,11 +249,13 @@ func (e *Engine) Verify(name string) (run *FuncRun, err error) {
 		st.assume(env.evalBool(rq.Expr))
 	}
 	run.entry = st.clone()
+	run.canary("entry", st.pc)
 	env.old = run.entry
 	exit, ret := fr.exec(st.clone(), args)
 	if exit == nil {
 		return run, nil
 	}
+	run.canary("exit", exit.pc)
 	// postconditions
 	post := &SpecEnv{eng: e, pkg: env.pkg, pkgScope: env.pkgScope, cur: exit, old: run.entry, vars: map[string]Val{}}
 	for k, v := range run.params {
@@ -269,6 +275,46 @@ func (e *Engine) Verify(name string) (run *FuncRun, err error) {
 	}
 	fr.frameCheck("frame", run.entry, exit, locs, ftags, fn.Pos(), "")
 	return run, nil
+}
+
+func (run *FuncRun) canary(where string, pc *Term) {
+	run.canaries = append(run.canaries, &Oblig{Name: run.name + "#canary." + where, Kind: "canary", Func: run.name, PC: pc, Goal: False,
+		Text: "premises are satisfiable at " + where + " (must NOT be provable)"})
+}
+
+// DischargeCanaries checks that no canary's premises are contradictory. A canary passes when
+// the solver does not answer unsat (sat, unknown and timeout are all fine).
+func (e *Engine) DischargeCanaries(cs []*Oblig, timeoutS int) (vacuous []*Oblig) {
+	axioms := e.axioms()
+	type job struct {
+		o *Oblig
+		s string
+		q bool
+	}
+	var jobs []job
+	for _, o := range cs {
+		s, q := e.scriptFor(o, axioms)
+		jobs = append(jobs, job{o, s, q})
+	}
+	var wg sync.WaitGroup
+	sem := make(chan struct{}, 16)
+	for i := range jobs {
+		wg.Add(1)
+		go func(j *job) {
+			defer wg.Done()
+			sem <- struct{}{}
+			defer func() { <-sem }()
+			r := Solve(j.s, j.q, timeoutS, e.scratch, j.o.Name)
+			j.o.Result = &r
+		}(&jobs[i])
+	}
+	wg.Wait()
+	for _, o := range cs {
+		if o.Result.Status == "unsat" {
+			vacuous = append(vacuous, o)
+		}
+	}
+	return vacuous
 }
 
 func resultNames(fn *ssa.Function, c *FuncContract) []string {
@@ -366,7 +412,8 @@ func (e *Engine) scriptFor(o *Oblig, axioms []*Term) (string, bool) {
 		gm = append(gm, in.T)
 	}
 	ax := append(append([]*Term{}, axioms...), strLitAxiomsFor(o.PC, o.Goal)...)
-	return Script(logicOpts, strPrelude, ax, []*Term{o.PC}, Not(o.Goal), gm)
+	goal, extra := prepareQuery(o.PC, o.Goal)
+	return Script(logicOpts, strPrelude, ax, []*Term{o.PC, extra}, Not(goal), gm)
 }
 
 func (e *Engine) Discharge(obligs []*Oblig, timeoutS int, stats *DischargeStats) {
@@ -379,7 +426,7 @@ func (e *Engine) Discharge(obligs []*Oblig, timeoutS int, stats *DischargeStats)
 	}
 	var jobs []job
 	for _, o := range obligs {
-		if o.Goal == True {
+		if o.Goal == True || And(o.PC, Not(o.Goal)) == False {
 			o.Result = &SolverResult{Status: "unsat", Backend: "simplifier"}
 			continue
 		}
@@ -398,6 +445,41 @@ func (e *Engine) Discharge(obligs []*Oblig, timeoutS int, stats *DischargeStats)
 			r := Solve(j.script, j.quant, timeoutS, e.scratch, j.o.Name)
 			j.o.Result = &r
 		}(&jobs[i])
+	}
+	wg.Wait()
+	// candidate counterexamples for undischarged obligations: drop quantified facts and ask again
+	var cjobs []job
+	for _, j := range jobs {
+		if j.o.Result.Status != "unsat" && j.o.Result.Status != "sat" && j.quant {
+			var keep []*Term
+			for _, c := range conjuncts(j.o.PC) {
+				if !termQuantified(c) {
+					keep = append(keep, c)
+				}
+			}
+			goal := j.o.Goal
+			if termQuantified(goal) {
+				continue
+			}
+			var gm []*Term
+			for _, in := range j.o.Inputs {
+				gm = append(gm, in.T)
+			}
+			s, _ := Script(logicOpts, func(seen map[string]bool) (string, bool) { return strDecls, false }, strLitAxiomsFor(j.o.PC, goal), keep, Not(goal), gm)
+			cjobs = append(cjobs, job{j.o, s, false})
+		}
+	}
+	for i := range cjobs {
+		wg.Add(1)
+		go func(j *job) {
+			defer wg.Done()
+			sem <- struct{}{}
+			defer func() { <-sem }()
+			r := Solve(j.script, false, timeoutS, e.scratch, j.o.Name+".cand")
+			if r.Status == "sat" {
+				j.o.Candidate = &r
+			}
+		}(&cjobs[i])
 	}
 	wg.Wait()
 	if stats != nil {
